@@ -184,6 +184,16 @@ def run(ctx: Context, rep) -> None:
                 if cl != 1 or det not in (None, True) or npc is not None:
                     bad.append((r, f"interleave(cycle_length={cl}, "
                                 f"deterministic={det}, num_parallel_calls={npc})"))
+            elif isinstance(f, ast.Attribute) and any(
+                    k.arg == "deterministic" for k in r.call.keywords):
+                # any other tf.data stage (map, ..) asked not to keep order
+                v = next(k.value for k in r.call.keywords
+                         if k.arg == "deterministic")
+                det = const_eval(v, r.env)
+                if det is UNKNOWN:
+                    det = eval_local(r, v)
+                if det not in (None, True):
+                    bad.append((r, f"{f.attr}(deterministic={det})"))
         for r, what in bad:
             rep.ob("C03.det", False, loc=r.fn.loc(r.call), where=fn.qualname,
                    construct=f"shuffle=0 still reaches {what} in "
